@@ -10,7 +10,7 @@ from ..core import AnalysisError, FuncInfo, Repo, attr_chain, call_name, const_v
 from ..report import Ctx
 
 PROP = "C18"
-FLOORS = {"C18-R1": 4, "C18-R2": 4, "C18-R3": 3, "C18-D1": 5}
+FLOORS = {"C18-R1": 4, "C18-R2": 7, "C18-R3": 4, "C18-D1": 5}
 
 EXPLANATION = (
     "Decided: (a) the lemma's side conditions are checked in one (north-east) orientation and transported by rotating pattern and cell – the transport "
@@ -174,6 +174,26 @@ def rule_transport(ctx: Ctx, po: PermOps, mo: MeshOps, fname: str, cells: List[s
         ctx.ok("C18-R2", fi.where, "the value (second coordinate) of the adjacent point is reported", report, fi)
     else:
         ctx.violation("C18-R2", fi, report, f"`{unparse(report.value.args[0])}` is reported instead of the value of the adjacent point ({ans}[1])")
+    acc = unparse(report.value.func.value)
+    check_result_returned(ctx, "C18-R2", fi, acc)
+    if len(cells) == 2:
+        # the side conditions assume the first cell is the upper one: the pair must be put in that order in every frame
+        c1, c2 = cells
+        norm = [st for st in lp.body if isinstance(st, ast.If) and unparse(st.test) in (f"{c1}[1] < {c2}[1]", f"{c2}[1] > {c1}[1]", f"{c1}[1] <= {c2}[1]", f"{c2}[1] >= {c1}[1]")]
+        ok = bool(norm) and [unparse(b) for b in norm[0].body] in ([f"{c1}, {c2} = ({c2}, {c1})"], [f"{c2}, {c1} = ({c1}, {c2})"]) and lp.body.index(norm[0]) < lp.body.index(cond_stmt)
+        if ok:
+            ctx.ok("C18-R2", fi.where, f"the pair is ordered (upper cell first) before the side conditions are evaluated, in every frame", norm[0], fi)
+        else:
+            ctx.violation("C18-R2", fi, cond_stmt, f"the pair ({c1}, {c2}) is not put into the order the side conditions assume (upper cell first) before they are evaluated: the verdict depends on the order in which the two cells are given")
+
+
+def check_result_returned(ctx: Ctx, rule: str, fi: FuncInfo, acc: str) -> None:
+    """The collected answers are what the function returns (as they are, or copied into a plain container)."""
+    last = fi.body[-1] if fi.body else None
+    if isinstance(last, ast.Return) and last.value is not None and unparse(last.value) in (acc, f"dict({acc})", f"list({acc})", f"tuple({acc})", f"sorted({acc})"):
+        ctx.ok(rule, fi.where, f"the collected `{acc}` is returned", last, fi)
+    else:
+        ctx.violation(rule, fi, last if last is not None else fi.node, f"{fi.name} does not end by returning the collected `{acc}`")
 
 
 def rule_r3(ctx: Ctx) -> None:
@@ -218,6 +238,11 @@ def rule_r3(ctx: Ctx) -> None:
             ctx.violation("C18-R3", fi, inner, f"table consults `{src[:70]}`, which is neither a cell nor a horizontally/vertically adjacent pair of it")
     if seen != set(want):
         ctx.violation("C18-R3", fi, ly, f"table omits the {sorted(set(want) - seen)} lookups")
+    accs = {n.func.value.value.id for n in ast.walk(ly) if isinstance(n, ast.Call) and isinstance(n.func, ast.Attribute) and n.func.attr == "append" and isinstance(n.func.value, ast.Subscript) and isinstance(n.func.value.value, ast.Name)}
+    if len(accs) == 1:
+        check_result_returned(ctx, "C18-R3", fi, accs.pop())
+    else:
+        raise AnalysisError(f"{fi.where}: table variable not recognised")
 
 
 def rule_d1(ctx: Ctx) -> None:
@@ -296,6 +321,10 @@ def _variants():
 
     MP = "permuta/patterns/meshpatt.py"
     return [
+        V("simul-pair-not-normalised", replace_stmt("permuta/patterns/meshpatt.py", "MeshPatt.can_simul_shade", "if pos1[1] < pos2[1]: ...", ""), "fire", "C18-R2"),
+        V("simul-pair-normalised-after", [replace_stmt("permuta/patterns/meshpatt.py", "MeshPatt.can_simul_shade", "if pos1[1] < pos2[1]: ...", ""), insert_stmt("permuta/patterns/meshpatt.py", "MeshPatt.can_simul_shade", "m_patt = m_patt.rotate()", "if pos1[1] < pos2[1]:\n    pos1, pos2 = pos2, pos1", "before")], "fire", "C18-R2"),
+        V("canshade-result-dropped", replace_stmt("permuta/patterns/meshpatt.py", "MeshPatt.can_shade", "return positions", "return []"), "fire", "C18-R2"),
+        V("table-result-dropped", replace_stmt("permuta/patterns/meshpatt.py", "MeshPatt.shadable_boxes", "return shadable", "return {}"), "fire", "C18-R3"),
         V("simul-excluded-rows-shifted", replace_expr("permuta/patterns/meshpatt.py", "MeshPatt.north_east_simul_shading_lemma_conditions", "(pos1[1], pos1[1] - 1)", "(pos1[1], pos2[1] - 1)"), "fire", "C18-N2"),
         V("simul-excluded-rows-above", replace_expr("permuta/patterns/meshpatt.py", "MeshPatt.north_east_simul_shading_lemma_conditions", "(pos1[1], pos1[1] - 1)", "(pos1[1], pos1[1] + 1)"), "fire", "C18-N2"),
         V("simul-excluded-columns-shifted", replace_expr("permuta/patterns/meshpatt.py", "MeshPatt.north_east_simul_shading_lemma_conditions", "(pos1[0], pos1[0] - 1)", "(pos1[0], pos1[0] + 1)"), "fire", "C18-N2"),
